@@ -5,6 +5,9 @@ import (
 	"fmt"
 	"os"
 	"os/exec"
+	"strings"
+
+	"golang.org/x/tools/go/ssa"
 )
 
 // Structural obligations: whole-package SSA scans that are not SMT queries
@@ -17,7 +20,117 @@ type StructObl struct {
 }
 
 func runStructural(ld *Loaded, sf *SpecFile, prop string) []StructObl {
+	switch prop {
+	case "C15":
+		return writeSiteFrame(ld)
+	case "C13":
+		return listPushSites(ld)
+	}
 	return nil
+}
+
+// writeSiteFrame (C15, family 1): every call that hands bytes to the transport or to a stream connection sits in
+// one of the functions whose contracts pin down what is written there. A new write site anywhere else is a failed obligation.
+func writeSiteFrame(ld *Loaded) []StructObl {
+	allowed := map[string]string{
+		"(*Memberlist).rawSendMsgPacket":             "packet path: contract ciphertext-only",
+		"(*Memberlist).rawSendMsgStream":             "stream path: contract ciphertext-only",
+		"AddLabelHeaderToStream":                     "cleartext label header only (contract header-bytes)",
+		"(*labelWrappedTransport).WriteToAddress":    "adds the cleartext label header around what it is given",
+		"(*labelWrappedTransport).WriteTo":           "adds the cleartext label header around what it is given",
+		"(*shimNodeAwareTransport).WriteToAddress":   "forwards unchanged",
+		"(*NetTransport).WriteTo":                    "concrete transport",
+		"(*NetTransport).WriteToAddress":             "concrete transport",
+		"(*MockTransport).WriteTo":                   "concrete test transport",
+		"(*MockTransport).WriteToAddress":            "concrete test transport",
+	}
+	var out []StructObl
+	seen := map[string]bool{}
+	for _, k := range sortedKeys(ld.funcs) {
+		fn := ld.funcs[k]
+		if fn.Synthetic != "" {
+			continue
+		}
+		for _, b := range fn.Blocks {
+			for _, ins := range b.Instrs {
+				var c *ssa.CallCommon
+				switch x := ins.(type) {
+				case *ssa.Call:
+					c = x.Common()
+				case *ssa.Go:
+					c = x.Common()
+				case *ssa.Defer:
+					c = x.Common()
+				}
+				if c == nil {
+					continue
+				}
+				name := ""
+				if c.IsInvoke() {
+					mn := c.Method.Name()
+					in := ifaceName(c.Value.Type())
+					if (mn == "WriteTo" || mn == "WriteToAddress") && (in == "Transport" || in == "NodeAwareTransport") {
+						name = in + "." + mn
+					}
+					if mn == "Write" && (in == "net.Conn") {
+						name = in + "." + mn
+					}
+				} else if f := c.StaticCallee(); f != nil {
+					fk := f.String()
+					if strings.HasSuffix(fk, "net.UDPConn).WriteTo") || strings.HasSuffix(fk, "net.TCPConn).Write") || strings.HasSuffix(fk, "net.UDPConn).Write") {
+						name = fk
+					}
+				}
+				if name == "" {
+					continue
+				}
+				root := fnKey(rootParent(fn))
+				key := "C15/write-site/" + fnKey(fn) + "/" + name
+				if seen[key] {
+					continue
+				}
+				seen[key] = true
+				why, ok := allowed[fnKey(fn)]
+				if !ok {
+					why, ok = allowed[root]
+				}
+				det := "call of " + name + " in " + fnKey(fn)
+				if ok {
+					det += ": " + why
+				} else {
+					det += ": NOT one of the functions whose contract fixes what is written to the network"
+				}
+				out = append(out, StructObl{Name: key, OK: ok, Detail: det})
+			}
+		}
+	}
+	return out
+}
+
+// listPushSites (C13): the axiom "every hand-off queue element is a msgHandoff" rests on the only insertion site.
+func listPushSites(ld *Loaded) []StructObl {
+	var out []StructObl
+	for _, k := range sortedKeys(ld.funcs) {
+		fn := ld.funcs[k]
+		for _, b := range fn.Blocks {
+			for _, ins := range b.Instrs {
+				call, ok := ins.(*ssa.Call)
+				if !ok || call.Common().IsInvoke() {
+					continue
+				}
+				f := call.Common().StaticCallee()
+				if f == nil || !strings.Contains(f.String(), "container/list.List).Push") && !strings.Contains(f.String(), "container/list.List).Insert") {
+					continue
+				}
+				okT := false
+				if mi, isMI := call.Common().Args[len(call.Common().Args)-1].(*ssa.MakeInterface); isMI {
+					okT = strings.HasSuffix(mi.X.Type().String(), "memberlist.msgHandoff")
+				}
+				out = append(out, StructObl{Name: "C13/list-insert/" + fnKey(fn), OK: okT, Detail: "insertion into a container/list in " + fnKey(fn) + " (axiom listvals: every element is a msgHandoff)"})
+			}
+		}
+	}
+	return out
 }
 
 // tryReplay attempts to run the solver's counterexample against the real code.
